@@ -487,9 +487,16 @@ func (e *Exec) unary(v *ast.UnaryExpr, c *Ctx) Term {
 				if cur, ok := c.st.vars[k]; ok {
 					return cur
 				}
-				r := Term{e.vc.FreshConst("addr_"+id.Name, "Int"), t}
-				e.assume(c.st, fmt.Sprintf("(> %s 0)", r.S))
+				r := Term{e.alloc(c.st, "cell"), t}
 				c.st.vars[k] = r
+				// the cell holds the variable's current value (a later *p reads it)
+				if t.K == KRef && t.Name == "" {
+					cur := e.eval(id, c)
+					at := &Type{K: KGMap, Key: tInt, Elem: t.Elem}
+					key := "P!" + mangle(e.Sort(t.Elem))
+					h := e.get(c.st, key, at)
+					e.set(c.st, key, Term{fmt.Sprintf("(store %s %s %s)", h.S, r.S, e.coerce(cur, t.Elem, c.st).S), at})
+				}
 				return r
 			}
 		}
